@@ -196,6 +196,9 @@ Qed.
 (* ------------------------------------------------------------------------- *)
 (* the dict pid_result_list_map                                               *)
 
+Lemma NoDup_app_r {A} (l l' : list A) : NoDup (l ++ l') -> NoDup l'.
+Proof. induction l as [|a l IH]; cbn [app]; intro H; [exact H|]. inversion H; subst. now apply IH. Qed.
+
 Lemma dset_fresh {V} k (v : V) d : ~ In k (map fst d) -> dset k v d = d ++ [(k, v)].
 Proof.
   intro H. unfold dset. destruct (existsb _ d) eqn:E; [exfalso|reflexivity].
@@ -267,7 +270,7 @@ Proof.
   unfold M_Parallel.any_died, pids. rewrite existsb_exists. split.
   - intros [p [Hp H]]. apply in_seq in Hp. rewrite K_par_died in H.
     destruct (exitc (wks w p)) as [c|] eqn:E; [|discriminate].
-    exists p, c. split; [lia|]. split; [reflexivity|].
+    exists p, c. split; [lia|]. split; [exact E|].
     destruct (Z.eqb_spec c 0); [discriminate|assumption].
   - intros [p [c [Hp [E Hc]]]]. exists p. split; [apply in_seq; lia|].
     rewrite K_par_died, E. destruct (Z.eqb_spec c 0); [contradiction|reflexivity].
@@ -347,16 +350,16 @@ Variable r0 : list R.
 
 Definition good_pid (p : nat) : Prop := 1 <= p <= np.
 
-Definition draining (m : mst) : option nat :=
+Definition draining (m : @mst R) : option nat :=
   match ph m with DrainA p | DrainB p _ => Some p | _ => None end.
 
-Definition consumed (m : mst) : nat :=
+Definition consumed (m : @mst R) : nat :=
   match ph m with DrainA _ | DrainB _ _ => S (it m) | _ => it m end.
 
-Definition entry_ok (w : world) (pid : nat) (r : list R) : Prop :=
+Definition entry_ok (w : @world R) (pid : nat) (r : list R) : Prop :=
   good_pid pid /\ wres pid = Ok r /\ pc (wks w pid) <> WRun.
 
-Record Inv (w : world) (m : mst) : Prop := mkInv {
+Record Inv (w : @world R) (m : @mst R) : Prop := mkInv {
   inv_rq : forall pid r, In (pid, r) (rq w) -> entry_ok w pid r;
   inv_pm : forall pid r, In (pid, r) (pmap m) -> (pid = 0 /\ r = r0) \/ entry_ok w pid r;
   inv_nodup : NoDup (map fst (rq w) ++ map fst (pmap m));
@@ -369,6 +372,11 @@ Record Inv (w : world) (m : mst) : Prop := mkInv {
            end;
   inv_drain : forall p, draining m = Some p -> good_pid p /\ In p (map fst (pmap m))
 }.
+
+Lemma entry_ok_mono w w' q r :
+  (forall p, pc (wks w p) <> WRun -> pc (wks w' p) <> WRun) ->
+  entry_ok w q r -> entry_ok w' q r.
+Proof. intros H [a [b c]]. split; [exact a|split; [exact b|apply H; exact c]]. Qed.
 
 Lemma Inv_init : Inv (mkworld [] (fun _ => fresh)) (mkmst 0 PollA [(0, r0)]).
 Proof.
@@ -388,8 +396,9 @@ Lemma Inv_mono w w' m :
   Inv w m -> Inv w' m.
 Proof.
   intros Hrq Hpc [H1 H2 H3 H4 H5 H6 H7]. constructor; try assumption.
-  - rewrite Hrq. intros pid r Hin. destruct (H1 pid r Hin) as [a [b c]]. repeat split; auto; apply a.
-  - intros pid r Hin. destruct (H2 pid r Hin) as [?|[a [b c]]]; [now left|right]. repeat split; auto; apply a.
+  - rewrite Hrq. intros pid r Hin. apply (entry_ok_mono w); [exact Hpc|now apply H1].
+  - intros pid r Hin. destruct (H2 pid r Hin) as [?|He]; [now left|right].
+    apply (entry_ok_mono w); [exact Hpc|exact He].
   - now rewrite Hrq.
 Qed.
 
@@ -416,10 +425,11 @@ Proof.
       [rewrite upd_eq; discriminate|now rewrite upd_neq]. }
   constructor; cbn [rq wks]; try assumption.
   - intros q r' Hin. apply in_app_or in Hin as [Hin|[E|[]]].
-    + destruct (H1 q r' Hin) as [a [b c]]. repeat split; auto; apply a.
-    + inversion E; subst. repeat split; auto. rewrite upd_eq. discriminate.
-  - intros q r' Hin. destruct (H2 q r' Hin) as [?|[a [b c]]]; [now left|right].
-    repeat split; auto; apply a.
+    + apply (entry_ok_mono w); [exact Hst|now apply H1].
+    + inversion E; subst. split; [split; assumption|]. split; [exact Hw|].
+      cbn [wks]. rewrite upd_eq. discriminate.
+  - intros q r' Hin. destruct (H2 q r' Hin) as [?|He']; [now left|right].
+    apply (entry_ok_mono w); [exact Hst|exact He'].
   - rewrite map_app. cbn [map fst]. rewrite <- app_assoc. cbn [app].
     apply NoDup_Add with (a := pid) (l := map fst (rq w) ++ map fst (pmap m)).
     + apply Add_app.
@@ -437,22 +447,22 @@ Proof.
   destruct phs as [|ae|ae|pid|pid e|].
   - (* PollA *)
     destruct (Nat.ltb_spec i np) as [Hlt|Hge]; intro E; inversion E; subst; clear E;
-      constructor; cbn [ph it pmap]; auto; try lia; intros p Hp; discriminate.
+      constructor; unfold consumed, draining; cbn [ph it pmap]; auto; try lia; try (intros p Hp; discriminate).
   - (* PollB *)
     destruct (rq w) as [|[pid r] rest] eqn:Hrq; intro E; inversion E; subst; clear E.
-    + constructor; cbn [ph it pmap]; auto; try rewrite Hrq; auto. intros p Hp; discriminate.
+    + constructor; unfold consumed, draining; cbn [ph it pmap]; auto; try rewrite Hrq; auto; try (intros p Hp; discriminate).
     + cbn [map fst app] in H3. inversion H3 as [|x xs Hnot ND]; subst.
       assert (Hfresh : ~ In pid (map fst pm)) by (intro Hc; apply Hnot; apply in_or_app; now right).
       rewrite (dset_fresh pid r pm Hfresh).
       assert (Hent : entry_ok w pid r) by (apply H1; now left).
-      constructor; cbn [rq wks ph it pmap].
+      constructor; unfold consumed, draining; cbn [rq wks ph it pmap].
       * intros q r' Hin. apply H1. now right.
       * intros q r' Hin. apply in_app_or in Hin as [Hin|[E|[]]]; [now apply H2|].
         inversion E; subst. now right.
       * rewrite map_app. cbn [map fst]. rewrite app_assoc.
         apply NoDup_Add with (a := pid) (l := map fst rest ++ map fst pm); [|split; assumption].
-        rewrite <- (app_nil_r ((map fst rest ++ map fst pm) ++ [pid])).
-        rewrite <- app_assoc. apply Add_app.
+        pose proof (Add_app pid (map fst rest ++ map fst pm) []) as HA.
+        rewrite app_nil_r in HA. exact HA.
       * rewrite map_app. apply in_or_app. now left.
       * rewrite app_length. cbn [length]. lia.
       * exact H6.
@@ -461,10 +471,10 @@ Proof.
   - (* PollC *)
     destruct (any_died w); [discriminate|]. destruct ae; [discriminate|].
     intro E; inversion E; subst; clear E.
-    constructor; cbn [ph it pmap]; auto; try lia. intros p Hp; discriminate.
+    constructor; unfold consumed, draining; cbn [ph it pmap]; auto; try lia; try (intros p Hp; discriminate).
   - (* DrainA *)
     destruct ((1 <=? pid) && (pid <=? np)); [|discriminate].
-    intro E; inversion E; subst; clear E. constructor; cbn [ph it pmap]; auto.
+    intro E; inversion E; subst; clear E. constructor; unfold consumed, draining; cbn [ph it pmap]; auto.
   - (* DrainB *)
     assert (Hlq : forall rest,
       (forall q r', In (q, r') (rq w) ->
@@ -476,21 +486,22 @@ Proof.
                 pc (upd (wks w) pid (mkwk (pc (wks w pid)) (exitc (wks w pid)) rest) p) <> WRun).
       { intros p Hp. destruct (Nat.eq_dec p pid) as [->|Hne]; [now rewrite upd_eq|now rewrite upd_neq]. }
       split; intros q r' Hin.
-      - destruct (H1 q r' Hin) as [a [b c]]. repeat split; auto; apply a.
-      - destruct (H2 q r' Hin) as [?|[a [b c]]]; [now left|right]. repeat split; auto; apply a. }
+      - apply (entry_ok_mono w); [exact Hpc|now apply H1].
+      - destruct (H2 q r' Hin) as [?|He']; [now left|right].
+        apply (entry_ok_mono w); [exact Hpc|exact He']. }
     destruct (lq (wks w pid)) as [|[id|] rest].
     + destruct e; [discriminate|]. intro E; inversion E; subst; clear E.
-      constructor; cbn [ph it pmap]; auto.
+      constructor; unfold consumed, draining; cbn [ph it pmap]; auto.
     + intro E; inversion E; subst; clear E. destruct (Hlq rest) as [Ha Hb].
-      constructor; cbn [rq wks ph it pmap]; auto.
+      constructor; unfold consumed, draining; cbn [rq wks ph it pmap]; auto.
     + intro E; inversion E; subst; clear E. destruct (Hlq rest) as [Ha Hb].
-      constructor; cbn [rq wks ph it pmap]; auto; try lia. intros p Hp; discriminate.
+      constructor; unfold consumed, draining; cbn [rq wks ph it pmap]; auto; try lia; try (intros p Hp; discriminate).
   - (* Join *)
     destruct (all_ended w); [discriminate|]. intro E; inversion E; subst; clear E.
-    constructor; cbn [ph it pmap]; auto.
+    constructor; unfold consumed, draining; cbn [ph it pmap]; auto.
 Qed.
 
-Definition InvS (s : sys) : Prop :=
+Definition InvS (s : @sys R) : Prop :=
   match s with Run w m => Inv w m | Fin _ => True end.
 
 (* what a returned list must be: the master's own results followed by the
@@ -498,45 +509,51 @@ Definition InvS (s : sys) : Prop :=
 Definition complete (r : list R) : Prop :=
   exists rs, Forall2 (fun p x => wres p = Ok x) (seq 1 np) rs /\ r = r0 ++ concat rs.
 
-Definition SafeS (s : sys) : Prop :=
+Definition SafeS (s : @sys R) : Prop :=
   match s with
   | Run w m => Inv w m
   | Fin (Done r) => complete r
   | Fin (Fail _) => True
   end.
 
+Lemma join_assemble w m :
+  Inv w m -> ph m = Join -> exists r, assemble (pmap m) = Ok r /\ complete r.
+Proof.
+  intros [H1 H2 H3 H4 H5 H6 H7] Hph. unfold consumed in H5. rewrite Hph in H5, H6.
+  assert (ND : NoDup (map fst (pmap m))) by (eapply NoDup_app_r; exact H3).
+  assert (Hkeys : forall p, In p (seq 0 (S np)) -> In p (map fst (pmap m))).
+  { apply (NoDup_length_incl ND).
+    - rewrite seq_length, map_length. lia.
+    - intros p Hp. apply in_map_iff in Hp as [[q r'] [Hq Hin]]. cbn in Hq; subst q.
+      apply in_seq. destruct (H2 p r' Hin) as [[-> _]|[[Ha Hb] _]]; lia. }
+  unfold assemble. rewrite H5, H6.
+  destruct (assemble_from_spec (pmap m) (seq 0 (S np)) ND Hkeys) as [rs [Hrs HF]].
+  rewrite Hrs. eexists; split; [reflexivity|].
+  cbn [seq] in HF. inversion HF as [|p0 x0 ps xs Hx0 HF']; subst.
+  destruct (H2 0 x0 Hx0) as [[_ ->]|[[Hbad _] _]]; [|lia].
+  exists xs. split; [|reflexivity].
+  assert (Hgen : forall ps ys, Forall2 (fun p y => In (p, y) (pmap m)) ps ys ->
+                 (forall p, In p ps -> 1 <= p) ->
+                 Forall2 (fun p y => wres p = Ok y) ps ys).
+  { induction 1 as [|p y ps' ys' Hpy _ IH]; intro Hge; constructor.
+    - destruct (H2 p y Hpy) as [[Hz _]|[_ [Hw _]]]; [|exact Hw].
+      specialize (Hge p (or_introl eq_refl)). lia.
+    - apply IH. intros q Hq. apply Hge. now right. }
+  apply Hgen; [exact HF'|]. intros p Hp. apply in_seq in Hp. lia.
+Qed.
+
 Lemma master_done_complete w m r : Inv w m -> mstep w m = Fin (Done r) -> complete r.
 Proof.
-  intros HI. rewrite mstep_eq. destruct HI as [H1 H2 H3 H4 H5 H6 H7].
-  unfold consumed in H5.
-  destruct m as [i phs pm]. cbn [ph it pmap] in *.
-  destruct phs as [|ae|ae|pid|pid e|].
-  - destruct (i <? np); discriminate.
+  intros HI. rewrite mstep_eq.
+  destruct (ph m) as [|ae|ae|pid|pid e|] eqn:Hph.
+  - destruct (it m <? np); discriminate.
   - destruct (rq w) as [|[? ?] ?]; discriminate.
   - destruct (any_died w); [discriminate|]. destruct ae; discriminate.
   - destruct ((1 <=? pid) && (pid <=? np)); discriminate.
   - destruct (lq (wks w pid)) as [|[?|] ?]; try discriminate. destruct e; discriminate.
-  - destruct (all_ended w); [|discriminate]. subst i.
-    assert (ND : NoDup (map fst pm)) by (eapply NoDup_app_remove_l; exact H3).
-    assert (Hkeys : forall p, In p (seq 0 (S np)) -> In p (map fst pm)).
-    { apply (NoDup_length_incl ND).
-      - rewrite seq_length, map_length. lia.
-      - intros p Hp. apply in_map_iff in Hp as [[q r'] [Hq Hin]]. cbn in Hq; subst q.
-        apply in_seq. destruct (H2 p r' Hin) as [[-> _]|[[Ha Hb] _]]; lia. }
-    unfold assemble. rewrite H5.
-    destruct (assemble_from_spec pm (seq 0 (S np)) ND Hkeys) as [rs [Hrs HF]].
-    rewrite Hrs. intro E; inversion E; subst; clear E.
-    cbn [seq] in HF. inversion HF as [|p0 x0 ps xs Hx0 HF']; subst.
-    destruct (H2 0 x0 Hx0) as [[_ ->]|[[Hbad _] _]]; [|lia].
-    exists xs. split; [|reflexivity].
-    assert (Hgen : forall ps ys, Forall2 (fun p y => In (p, y) pm) ps ys ->
-                   (forall p, In p ps -> 1 <= p) ->
-                   Forall2 (fun p y => wres p = Ok y) ps ys).
-    { induction 1 as [|p y ps' ys' Hpy _ IH]; intro Hge; constructor.
-      - destruct (H2 p y Hpy) as [[Hz _]|[_ [Hw _]]]; [|exact Hw].
-        specialize (Hge p (or_introl eq_refl)). lia.
-      - apply IH. intros q Hq. apply Hge. now right. }
-    apply Hgen; [exact HF'|]. intros p Hp. apply in_seq in Hp. lia.
+  - destruct (all_ended w); [|discriminate].
+    destruct (join_assemble w m HI Hph) as [r' [Ha Hc]]. rewrite Ha.
+    intro E; inversion E; subst. exact Hc.
 Qed.
 
 Lemma SafeS_step a s : SafeS s -> SafeS (step a s).
